@@ -91,13 +91,22 @@ Theorem C09_timeout_needs_expiry : forall c n0 es i,
 Proof. exact timeout_needs_expiry. Qed.
 Print Assumptions C09_timeout_needs_expiry.
 
-(* ---- "fails with a lock-timeout error" -- and with nothing else? -----------------------------------
-   The property text lets a process that cannot get access fail only with the lock timeout.  The
-   faithful model of the pinned tree (COMMIT = Remove, then Rename) violates that: a transaction that
-   starts inside another one's Remove/Rename window fails with "file does not exist" (finding
-   commit-remove-rename-window, DESIGN F-C10-1). *)
+(* ---- "fails with a lock-timeout error" -- and with nothing else ------------------------------------
+   The property text lets a process that cannot get access fail only with the lock timeout: no
+   "file does not exist", no I/O error from the open after a granted lock.  For the COMMIT that
+   renames over the table (/repo since fix 4dfbb28, `atomic c = true`) this holds: *)
 Definition C09_only_lock_timeouts (c : cfg) : Prop :=
   forall n0 es i, outs (run c es (init n0)) i <> ONotExist /\ outs (run c es (init n0)) i <> OIOErr.
+
+Theorem C09_only_lock_timeouts_rename_over : forall c, atomic c = true -> C09_only_lock_timeouts c.
+Proof.
+  exact (fun c Ha n0 es i => conj (atomic_never_notexist c n0 es i Ha) (never_ioerr_of_Inv c n0 _ i (inv_reach c n0 es))).
+Qed.
+Print Assumptions C09_only_lock_timeouts_rename_over.
+
+(* The faithful model of the tree before that fix (COMMIT = Remove, then Rename) violates it: a
+   transaction that starts inside another one's Remove/Rename window fails with "file does not
+   exist" (finding commit-remove-rename-window, DESIGN F-C10-1). *)
 
 Definition all_writers : cfg := mkCfg (fun _ => RoleW) false.
 Definition window_witness : list event := repeat (Step 0) 9 ++ [Step 1].
@@ -108,7 +117,7 @@ Proof.
 Qed.
 Print Assumptions C09_only_lock_timeouts_refuted.
 
-(* what is true instead: (1) with the repaired COMMIT that renames over the table the statement
+(* what is true of both variants: (1) with the COMMIT that renames over the table the statement
    holds; (2) an I/O error from the open after a granted lock never happens in either variant;
    (3) in the pinned variant "file does not exist" is decided only by a step taken while ANOTHER
    process sits between Remove and Rename -- and by C09_timeout_changes_nothing that process
